@@ -140,6 +140,12 @@ impl Http3Codec {
                 self.notify_writable_streams(streams);
                 Ok(None)
             }
+            QuicSocketEvent::Finished(stream_id) => {
+                // only the request is complete: let the reader observe the end of stream and
+                // leave the response direction alone
+                let _ = self.on_stream_readable(stream_id);
+                Ok(None)
+            }
             QuicSocketEvent::Close(stream_id) => {
                 let _ = self.on_stream_shutdown(stream_id, None);
                 Ok(None)
